@@ -2,8 +2,8 @@ SPECIFICATION Spec
 CONSTANTS
   NCol = 3
   NRow = 3
-  SRow = 2
+  SRow = 4
   Ops = {"remove", "clear", "clone_from"}
-  Guarded = FALSE
+  Guarded = TRUE
 INVARIANT PanicSafe
 CHECK_DEADLOCK FALSE
